@@ -12,7 +12,7 @@ import (
 
 func init() {
 	register(&Property{
-		ID: "C12",
+		ID:          "C12",
 		Explanation: "The property is a bounded-time liveness claim over all fault histories; NO static argument in reach bounds 'within N election timeouts'. This check decides only five structural NECESSARY conditions of catch-up progress and says so: (1) on a rejected AppendEntries the leader's nextIndex strictly decreases towards 1 (folded over next in 1..8, follower hint in 0..8), and success paths advance it to last+1; (2) after a successful InstallSnapshot the follower must accept a request whose previous entry is the snapshot boundary – either its cached log tail is brought in line or the previous-entry check consults the snapshot position (known finding: neither exists); (3) a new leader starts replication and appends its no-op before entering the loop, and every append triggers every replication routine; (4) randomTimeout(d) returns a timer in [d, 2d) for d > 0 and nil only for 0, timeouts below 5ms are rejected, the follower re-arms its timer on every expiry; (5) the vote and pre-vote ladders grant to every candidate whose log is at least as up to date (5 of 9 orderings).",
 		NotDecided:  "the liveness statement itself: that elections terminate, the time bound, absence of other livelocks, and convergence of every follower – none of these is decided.",
 		RuleText:    "C12.R1 finite-domain folding of the back-off expression; R2 existence rule for snapshot-boundary acceptance; R3 must-precede in runLeader + trigger loop; R4 folding of the timeout expression and re-arm rule; R5 liveness direction of the ordering oracle.",
